@@ -554,7 +554,11 @@ def pack2d(RVARA, verbose=False):
         ICVAL = INT((RVAR[:, myI] - ROLD) * SCEXP + 127.5)
         CVAR[:, myI] = ICVAL
         ROLD = FLOAT(ICVAL - 127) / SCEXP + ROLD
-    KSUM = INT(CVAR.sum()) % 255
+    # rotating checksum: 255 is subtracted whenever the running sum
+    # reaches 256, so a non-zero total that is a multiple of 255 gives 255
+    KSUM = INT(CVAR.sum())
+    if KSUM > 0:
+        KSUM = (KSUM - 1) % 255 + 1
     # END NUMPY VECTOR CODE
 
     # assert((CVART == CVAR).all())
